@@ -747,51 +747,24 @@ func (cs *childState) execLine(l string) string {
 		})
 		structural := derr != nil && !strings.HasPrefix(codec.ErrClass(derr), "op-")
 		// The containers as loaded, before the op log is replayed: for Pilosa data whose header,
-		// offset and container sections were accepted, decode the bytes in front of the op log on
-		// their own (for official data, and without ops, that is the bitmap itself).
-		loaded := b
+		// offset and container sections were accepted, the hook repeats the walk over the header and
+		// offset sections. Inconsistent containers are reported whatever the replay of the op
+		// log then did (it can fail, or panic in a kernel that trusts the header).
+		loadedState := "unknown"
 		if len(d) >= 2 && d[0] == 0x3c && d[1] == 0x30 && !structural {
-			prefixOK := false
 			_ = guardPanic(func() string {
-				oo := roaring.VerifC06OpsOffset(d)
-				if oo < 8 || oo > len(d) {
-					return ""
-				}
-				g2, free2 := codec.Guard(d[:oo])
-				defer free2()
-				pb := codec.NewBitmap(ws[1])
-				if err := pb.UnmarshalBinary(g2); err == nil {
-					for _, it := range roaring.VerifC06Containers(pb) {
-						if !itemWf(it) {
-							return ""
-						}
+				items, _ := roaring.VerifC06Loaded(d)
+				loadedState = "wf"
+				for _, it := range items {
+					if !itemWf(it) {
+						loadedState = "ill"
 					}
-					prefixOK = true
 				}
 				return ""
 			})
-			if !prefixOK {
-				// either inconsistent containers, or the prefix could not be decoded on its own
-				// (a container reaching behind the op-log start): the latter falls through to the
-				// check of the final containers below
-				ill := false
-				_ = guardPanic(func() string {
-					oo := roaring.VerifC06OpsOffset(d)
-					if oo < 8 || oo > len(d) {
-						return ""
-					}
-					g2, free2 := codec.Guard(d[:oo])
-					defer free2()
-					pb := codec.NewBitmap(ws[1])
-					if err := pb.UnmarshalBinary(g2); err == nil {
-						ill = true
-					}
-					return ""
-				})
-				if ill {
-					return "ok illformed"
-				}
-			}
+		}
+		if loadedState == "ill" {
+			return "ok illformed"
 		}
 		if full != "" {
 			return full
@@ -800,9 +773,11 @@ func (cs *childState) execLine(l string) string {
 			return "err:" + codec.ErrClass(derr)
 		}
 		ops, opN := roaring.VerifC04Ops(b)
-		for _, it := range roaring.VerifC06Containers(loaded) {
-			if !itemWf(it) && ops == 0 {
-				return "ok illformed"
+		if loadedState == "unknown" {
+			for _, it := range roaring.VerifC06Containers(b) {
+				if !itemWf(it) {
+					return "ok illformed"
+				}
 			}
 		}
 		vals := b.Slice()
